@@ -878,6 +878,9 @@ func forkRulesBits(fork string) string { return fork }
 func writeRun(w *os.File, meta progMeta, a, r runOut) int {
 	enc := json.NewEncoder(w)
 	reset := SEv{K: "reset", Name: fmt.Sprintf("%d/%s/%s/%s/%d/%s", meta.Idx, meta.Name, meta.Fork, meta.Entry, meta.Gas, meta.Cfg), Kind: meta.Fork, I0: -2, I1: -2, I2: -2}
+	if strings.Contains(meta.Cfg, "3860") {
+		reset.Code = 3860 // EIP-3860 is enabled as an extra EIP: init code is priced per word on every fork
+	}
 	if strings.HasSuffix(meta.Cfg, "+jp") && strings.HasPrefix(meta.Cfg, "tracer") {
 		reset.Top = 1 // join points are on (nothing bound) and the stream is recorded
 	}
